@@ -10,6 +10,7 @@ package rules
 import (
 	"errors"
 	"fmt"
+	"strings"
 	"testing"
 
 	"github.com/rs/zerolog"
@@ -23,6 +24,7 @@ import (
 	"github.com/dadrus/heimdall/internal/rules/mechanisms/errorhandlers"
 	"github.com/dadrus/heimdall/internal/rules/mechanisms/finalizers"
 	"github.com/dadrus/heimdall/internal/rules/mechanisms/subject"
+	"github.com/dadrus/heimdall/internal/rules/rule"
 	"github.com/dadrus/heimdall/internal/zzverif/vf"
 )
 
@@ -612,6 +614,170 @@ func c14Corpus() []c14Case {
 		{Proxy: true, Rule: c14Rule{Exec: []c14Step{au}}},
 		// no authenticator anywhere
 		{Rule: c14Rule{Exec: []c14Step{az}}},
+	}
+}
+
+// ---- stream 2: YAML rule set -> real parser -> real processor -> real repository ----
+
+func c14YamlVal(v any) string {
+	switch x := v.(type) {
+	case int:
+		return fmt.Sprintf("%d", x)
+	case string:
+		return fmt.Sprintf("%q", x)
+	case map[string]any:
+		return "{ a: b }"
+	}
+
+	return "null"
+}
+
+func c14YamlSteps(sb *strings.Builder, key string, steps []c14Step) {
+	if len(steps) == 0 {
+		return
+	}
+
+	sb.WriteString("    " + key + ":\n")
+
+	for _, s := range steps {
+		m := c14StepMap(s)
+		first := true
+
+		for _, k := range []string{"authenticator", "authorizer", "contextualizer", "finalizer", "error_handler", "if", "config"} {
+			v, ok := m[k]
+			if !ok {
+				continue
+			}
+
+			if first {
+				sb.WriteString("      - ")
+				first = false
+			} else {
+				sb.WriteString("        ")
+			}
+
+			sb.WriteString(k + ": " + c14YamlVal(v) + "\n")
+		}
+
+		if first {
+			sb.WriteString("      - {}\n")
+		}
+	}
+}
+
+func c14Yaml(c c14Case) string {
+	var sb strings.Builder
+
+	sb.WriteString("version: \"1alpha4\"\nname: test\nrules:\n  - id: r\n    match:\n      routes:\n        - path: /a\n")
+
+	if c.Rule.Bt != nil {
+		sb.WriteString(fmt.Sprintf("      backtracking_enabled: %v\n", *c.Rule.Bt))
+	}
+
+	if c.Rule.BadMeth {
+		sb.WriteString("      methods: [ \"\" ]\n")
+	}
+
+	if c.Rule.Backend {
+		sb.WriteString("    forward_to:\n      host: up.example.com\n")
+	}
+
+	c14YamlSteps(&sb, "execute", c.Rule.Exec)
+	c14YamlSteps(&sb, "on_error", c.Rule.Eh)
+
+	return sb.String()
+}
+
+func c14RunRuleSet(c c14Case) (obs c14Obs) {
+	mode := config.DecisionMode
+	if c.Proxy {
+		mode = config.ProxyMode
+	}
+
+	conf := &config.Configuration{}
+	if c.Def != nil {
+		conf.Default = &config.DefaultRule{
+			BacktrackingEnabled: c.Def.Bt,
+			Execute:             c14Steps(c.Def.Exec),
+			ErrorHandler:        c14Steps(c.Def.Eh),
+		}
+	}
+
+	var factory rule.Factory
+
+	func() {
+		defer func() {
+			if p := recover(); p != nil {
+				obs = c14Obs{Status: "factory_panic", Err: fmt.Sprint(p)}
+			}
+		}()
+
+		f, err := NewRuleFactory(c14Factory{}, conf, mode, zerolog.Nop())
+		if err != nil {
+			obs = c14Obs{Status: "factory_failed", Err: err.Error()}
+
+			return
+		}
+
+		factory = f
+	}()
+
+	if factory == nil {
+		return obs
+	}
+
+	defer func() {
+		if p := recover(); p != nil {
+			obs = c14Obs{Status: "panic", Err: fmt.Sprint(p)}
+		}
+	}()
+
+	rs, err := config2.ParseRules("application/yaml", strings.NewReader(c14Yaml(c)), false)
+	if err != nil {
+		return c14Obs{Status: "rejected", Err: "parse: " + err.Error()}
+	}
+
+	rs.Source = "src"
+
+	repo := newRepository(factory).(*repository) //nolint:forcetypeassert
+
+	if err = NewRuleSetProcessor(repo, factory).OnCreated(rs); err != nil {
+		return c14Obs{Status: "rejected", Err: err.Error()}
+	}
+
+	if len(repo.knownRules) != 1 {
+		return c14Obs{Status: "rejected", Err: fmt.Sprintf("known rules: %d", len(repo.knownRules))}
+	}
+
+	return c14Observe(repo.knownRules[0].(*ruleImpl)) //nolint:forcetypeassert
+}
+
+func TestVerifC14RuleSet(t *testing.T) {
+	w := vf.NewWriter()
+	defer w.Close()
+
+	root := vf.NewRand(vf.Seed() + 1000003)
+	n := vf.N(600)
+	idx := 0
+
+	emit := func(stream string, c c14Case) {
+		if vf.Want(idx) {
+			o := c14RunRuleSet(c)
+			w.Put(vf.Obs{
+				I: idx, Stream: stream, In: map[string]any{"case": c, "yaml": c14Yaml(c)}, Out: o, Coq: c14Coq(c, o),
+				Nontrivial: c14Nontrivial(c, o), Tags: []string{"rs-status:" + o.Status},
+			})
+		}
+
+		idx++
+	}
+
+	for _, c := range c14Corpus() {
+		emit("corpus", c)
+	}
+
+	for i := 0; i < n; i++ {
+		emit("generated", c14Gen(root.Fork(uint64(i))))
 	}
 }
 
